@@ -551,6 +551,21 @@ impl World {
         inside
     }
 
+    /// Where is the entry `rel` really (world-relative, symlinks in the
+    /// directory part resolved)? Must be asked *before* a rename changes what
+    /// the path means.
+    pub fn real_of(&self, rel: &str) -> Option<String> {
+        let (parent, base) = match rel.rfind('/') {
+            Some(i) => (&rel[..i], &rel[i + 1..]),
+            None => ("", rel),
+        };
+        let fd = sys::open(&abs(parent), libc::O_PATH | libc::O_DIRECTORY, 0).ok()?;
+        let p = String::from_utf8_lossy(&sys::fd_path(fd)).into_owned();
+        sys::close(fd);
+        let relp = p.strip_prefix(TOP)?.trim_start_matches('/').to_string();
+        Some(if relp.is_empty() { base.to_string() } else { format!("{relp}/{base}") })
+    }
+
     fn zone_now(&self, rel: &str) -> Zone {
         if self.under_root_now(rel) {
             Zone::Inside
@@ -566,19 +581,23 @@ impl World {
     pub fn apply(&mut self, m: &Mutation) -> Result<bool, i32> {
         match m {
             Mutation::Rename { src, dst } => {
+                // where the destination really is, and whether that is under the root,
+                // is decided before the rename changes what the paths mean
+                let (zd, rd) = (self.zone_now(dst), self.real_of(dst));
                 sys::renameat2(libc::AT_FDCWD, &abs(src), libc::AT_FDCWD, &abs(dst), 0)?;
-                if self.zone_now(dst) == Zone::Inside {
-                    self.mark_inside_subtree(dst);
+                if zd == Zone::Inside {
+                    self.mark_inside_subtree(rd.as_deref().unwrap_or(dst));
                 }
                 Ok(true)
             }
             Mutation::Exchange { a, b } => {
+                let (za, zb, ra, rb) = (self.zone_now(a), self.zone_now(b), self.real_of(a), self.real_of(b));
                 sys::renameat2(libc::AT_FDCWD, &abs(a), libc::AT_FDCWD, &abs(b), 2 /*RENAME_EXCHANGE*/)?;
-                if self.zone_now(a) == Zone::Inside {
-                    self.mark_inside_subtree(a);
+                if za == Zone::Inside {
+                    self.mark_inside_subtree(ra.as_deref().unwrap_or(a));
                 }
-                if self.zone_now(b) == Zone::Inside {
-                    self.mark_inside_subtree(b);
+                if zb == Zone::Inside {
+                    self.mark_inside_subtree(rb.as_deref().unwrap_or(b));
                 }
                 Ok(true)
             }
@@ -614,11 +633,12 @@ impl World {
                 // the link is created outside but is about to be inside: it is
                 // the attacker's own object, label it by its destination
                 let z = self.zone_now(path);
+                let rp = self.real_of(path);
                 self.label_path(park, Some(z));
                 match sys::renameat2(libc::AT_FDCWD, &abs(park), libc::AT_FDCWD, &abs(path), 2) {
                     Ok(()) => {
                         if z == Zone::Inside {
-                            self.mark_inside_subtree(path);
+                            self.mark_inside_subtree(rp.as_deref().unwrap_or(path));
                         }
                         Ok(true)
                     }
